@@ -46,7 +46,23 @@ let check_frame (max : Model.z) (hexbytes : string) (m : msg) (expect : outcome)
       | Some mb -> if hex_of_bytes mb = hexbytes then None
                    else Some (Printf.sprintf "bytes differ: model=%s impl=%s" (hex_of_bytes mb) hexbytes)
     else None in
-  match byte_problem with
+  (* a compressed argument travels as compress(msgpack(arg)): a non-empty byte string that the standard library inflates (the
+     oracle table has it); the decoder's leniency towards an empty payload is not part of the wire format *)
+  let payload_problem =
+    if not compressed then None else
+    match dec_int32 bs with
+    | I32 (_, rest) ->
+        (match decode rest with
+         | DOk (VArr (VInt t :: els), _) when ZZ.equal (z_of_coq t) (ZZ.of_int 4) && List.length els >= 4 ->
+             (match List.nth els 3 with
+              | VBin [] -> Some "the compressed argument is an empty byte string, not compress(msgpack(argument))"
+              | VBin pl -> (match List.assoc_opt pl infl with
+                            | Some (Some _) -> None
+                            | _ -> Some "the compressed argument does not inflate with the standard library")
+              | _ -> Some "the compressed argument is not a byte string")
+         | _ -> None)
+    | _ -> None in
+  match (match byte_problem with Some p -> Some p | None -> payload_problem) with
   | Some p -> Some p
   | None ->
       let (o, rest) = next_frame (env_for m infl) max bs in
